@@ -105,8 +105,9 @@ def dataset(model, sd, ks):
     yield sample_inputs(model, sd, k)
 
 
-def calibrate(model_bytes, recipe, key, ks, previous=None):
-  q = quantizer_lib.Quantizer(model_bytes, copy.deepcopy(recipe))
+def calibrate(model_bytes, recipe, key, ks, previous=None, q=None):
+  if q is None:
+    q = quantizer_lib.Quantizer(model_bytes, copy.deepcopy(recipe))
   model = flatbuffer_utils.read_model_from_bytearray(bytearray(model_bytes))
   sd = dict(signatures(model))[key]
   return q.calibrate(dataset(model, sd, ks), key, previous)
@@ -236,6 +237,9 @@ def stats_equal(e, name, got, want_terms, tag):
       continue
     rank = len([1 for _ in got[nm]['min'].shape]) if hasattr(
         got[nm]['min'], 'shape') else 0
+    if g0.sort() != mn.sort() or g1.sort() != mx.sort():
+      e.check(name, False, info=[tag, nm, f'dtype {g0.sort()} != {mn.sort()}'])
+      continue
     e.check(name, z3.And(g0 == mn, g1 == mx), info=[tag, nm])
 
 
@@ -333,6 +337,35 @@ def make_harness(model_bytes, recipe, key, n):
         e.check('C09.resume.same_keys_as_single_pass',
                 set(r2) == set(full), info=[key, cut,
                                             sorted(set(r2) ^ set(full))[:4]])
+      # histories on ONE Quantizer object: an earlier calibration (on other
+      # samples) must not leak into a later fresh one, a resumed session on
+      # the same object equals the single pass, and results handed out
+      # earlier are not rewritten by later calls
+      try:
+        qs = quantizer_lib.Quantizer(model_bytes, copy.deepcopy(recipe))
+        other = [n + k for k in ks]
+        ra = calibrate(model_bytes, recipe, key, other, q=qs)
+        snap_a = snapshot(ra)
+        rb = calibrate(model_bytes, recipe, key, ks, q=qs)
+        stats_equal(e, 'C09.history.fresh_calibration_on_used_quantizer_exact',
+                    rb, want, f'{key} n={n} after calibrate on other samples')
+        e.check('C09.history.earlier_result_not_modified',
+                same_as_snapshot(ra, snap_a), info=[key, 'second calibrate'])
+        if n > 1:
+          cut = n // 2
+          qs = quantizer_lib.Quantizer(model_bytes, copy.deepcopy(recipe))
+          r1 = calibrate(model_bytes, recipe, key, ks[:cut], q=qs)
+          snap = snapshot(r1)
+          r2 = calibrate(model_bytes, recipe, key, ks[cut:], previous=r1, q=qs)
+          e.check('C09.history.earlier_result_not_modified',
+                  same_as_snapshot(r1, snap), info=[key, 'resume same object'])
+          stats_equal(e, 'C09.history.resume_on_same_quantizer_equals_single_pass',
+                      r2, want, f'{key} n={n} cut={cut} same object')
+      except Inconclusive:
+        raise
+      except Exception as ex:  # pylint: disable=broad-except
+        e.check('C09.history.calibrate_does_not_raise', False,
+                info=[f'{type(ex).__name__}: {str(ex)[:120]}', key])
   return h
 
 
@@ -512,6 +545,39 @@ def replay(c):
         if nm not in r2 or not np.array_equal(np.asarray(full[nm][kk]),
                                               np.asarray(r2[nm][kk])):
           bad.append(f'resume at {cut}: {nm}/{kk} differs from single pass')
+  # one Quantizer object used for several sessions
+  try:
+    qs = quantizer_lib.Quantizer(mb, copy.deepcopy(recipe))
+    other = [{k: (v * 3 + 1).astype(v.dtype) if v.dtype.kind == 'f' else v
+              for k, v in s.items()}
+             for s in data]
+    ra = qs.calibrate(other, key)
+    before = copy.deepcopy(ra)
+    rb = qs.calibrate(data, key)
+    for nm in full:
+      for kk in full[nm]:
+        if nm not in rb or not np.array_equal(np.asarray(full[nm][kk]),
+                                              np.asarray(rb[nm][kk])):
+          bad.append(f'history: fresh calibrate on a used Quantizer: {nm}/{kk} '
+                     'differs from a fresh Quantizer')
+    for k in before:
+      for kk in before[k]:
+        if not np.array_equal(np.asarray(before[k][kk]), np.asarray(ra[k][kk])):
+          bad.append(f'history: earlier result modified at {k}/{kk}')
+    if n > 1:
+      cut = n // 2
+      qs = quantizer_lib.Quantizer(mb, copy.deepcopy(recipe))
+      r1 = qs.calibrate(data[:cut], key)
+      r2 = qs.calibrate(data[cut:], key, r1)
+      for nm in full:
+        for kk in full[nm]:
+          if nm not in r2 or not np.array_equal(np.asarray(full[nm][kk]),
+                                                np.asarray(r2[nm][kk])):
+            bad.append(f'history: resume on the same Quantizer: {nm}/{kk} '
+                       'differs from single pass')
+  except Exception as ex:  # pylint: disable=broad-except
+    bad.append(f'history: calibrate on a used Quantizer raises '
+               f'{type(ex).__name__}: {ex}')
   return bool(bad), 'statistics: ' + (bad[0].split(':')[0] if bad else ''), (
       f"skeleton={d['skeleton']} recipe={d['recipe']} signature={key} "
       f'n={n}: {bad[:3]}')
